@@ -320,7 +320,7 @@ pub fn exec_case(env: &mut Env, rep: &mut Report, case: &Case) {
 // ------------------------------------------------------------------------------------------
 // Case stream
 
-fn embed(fe: Fe, rng: &mut Rng, text: &str) -> String {
+pub fn embed(fe: Fe, rng: &mut Rng, text: &str) -> String {
     match fe {
         Fe::Plain | Fe::Md | Fe::MdTitle | Fe::Git => text.to_string(),
         Fe::Html => match rng.below(3) {
@@ -381,9 +381,17 @@ fn embed(fe: Fe, rng: &mut Rng, text: &str) -> String {
     }
 }
 
-fn nesting_doc(fe: Fe, unit: &str, depth: usize, closer: &str) -> String {
-    let body = format!("{}word{}", unit.repeat(depth), closer.repeat(depth));
+/// shape 0: `depth` levels nested, inside a line comment for the comment front-ends; 1: the same at the
+/// top level of the file (block comments of the language itself nest); 2 / 3: one parent holding `depth`
+/// siblings, in a line comment / at the top level.
+fn nesting_doc(fe: Fe, unit: &str, depth: usize, closer: &str, shape: usize) -> String {
+    let body = if shape < 2 {
+        format!("{}word{}", unit.repeat(depth), closer.repeat(depth))
+    } else {
+        format!("{unit}{}{closer}", format!("{unit}word{closer} ").repeat(depth))
+    };
     match fe {
+        Fe::Comment(_) if shape % 2 == 1 => format!("{body}\n"),
         Fe::Comment(i) => {
             let sx = langs::syntax(LANGS[i as usize]);
             format!("{}{} {}\n", sx.prelude, sx.line[0], body)
@@ -659,13 +667,18 @@ pub fn worker(ctx: &mut Ctx) {
         for fe in &all_fes {
             for (u, c) in units {
                 for d in &depths {
-                    unit += 1;
-                    if !ctx.mine(unit) {
-                        continue;
+                    for shape in 0..4usize {
+                        if shape > 0 && (*d > 100 || (!fe.is_comment() && shape % 2 == 1)) {
+                            continue;
+                        }
+                        unit += 1;
+                        if !ctx.mine(unit) {
+                            continue;
+                        }
+                        let (cfg, dialect) = stream.cfg_for(unit);
+                        let text = nesting_doc(*fe, u, *d, c, shape);
+                        run!(Case { fam: "nesting", fe: *fe, wrap: Wrap::None, text, cfg, dialect });
                     }
-                    let (cfg, dialect) = stream.cfg_for(unit);
-                    let text = nesting_doc(*fe, u, *d, c);
-                    run!(Case { fam: "nesting", fe: *fe, wrap: Wrap::None, text, cfg, dialect });
                 }
             }
         }
